@@ -6,6 +6,7 @@
    (any [Permutation] of what the owners send). *)
 From Coq Require Import Permutation.
 From Verif Require Import C03.Model C03.Spec C03.Proofs C03.Level C03.LevelProofs.
+From Verif Require Import C03.Batch C03.BatchProofs C03.Handoff C03.Remote C03.HandoffProofs.
 From VerifGen Require Import Consts.
 Open Scope N_scope.
 
@@ -127,3 +128,158 @@ Example requested_level_examples :
   parse_level [81; 117; 79; 114; 85; 109] = Some LQuorum /\ parse_level [97; 108] = None /\
   parse_level [226; 132; 170] = None /\ parse_level [] = None /\ request_level [] = Some LOne.
 Proof. vm_compute. repeat split; reflexivity. Qed.
+
+(* ================= the BATCH: WritePointsPrivilegedWithContext over several shards =================
+   All of the following quantify over every request configuration [b] (level, coordinator node
+   id, out-of-order mode), every [run] = list of shards of any length, each with its own
+   shard-not-found path and its own owners (any number, any environment) together with the
+   order in which that shard's owners answer (any [Permutation], hypothesis [valid_run]), every
+   order [sarr] in which the shards' results reach the batch loop (any [Permutation] of
+   [results b run]), every number of dropped points and every point [close] at which
+   PointsWriter.Close is seen (None, or after k results, any k). *)
+
+(* (a) the client is told success only if EVERY shard met the level, no point was dropped and
+   no Close was seen while shards were outstanding *)
+Theorem batch_success_sound :
+  forall b run sarr close dropped,
+  valid_run b run -> Permutation sarr (results b run) ->
+  batch_write close dropped sarr = None ->
+  Forall (run_met b) run /\ dropped = 0 /\ closes_early close (length run) = false.
+Proof. exact BatchProofs.batch_success_sound. Qed.
+Print Assumptions batch_success_sound.
+
+(* (b) ... and success IS reported when every shard met the level in time, nothing was dropped
+   and no Close happened during the wait *)
+Theorem batch_success_complete :
+  forall b run sarr close dropped,
+  valid_run b run -> Permutation sarr (results b run) ->
+  Forall (run_met b) run -> dropped = 0 -> closes_early close (length run) = false ->
+  batch_write close dropped sarr = None.
+Proof. exact BatchProofs.batch_success_complete. Qed.
+Print Assumptions batch_success_complete.
+
+(* (c) a reported error is never invented: it is the value sent by the FIRST shard in arrival
+   order that did not meet the level (received before any Close), or the dropped-points
+   partial write when every shard met the level, or closing when a Close was seen while every
+   value received so far was a success ([batch_err_shape] in BatchProofs.v spells this out) *)
+Theorem batch_error_is_some_shards_error :
+  forall b run sarr close dropped e,
+  valid_run b run -> Permutation sarr (results b run) ->
+  batch_write close dropped sarr = Some e -> batch_err_shape b run sarr close dropped e.
+Proof. exact BatchProofs.batch_error. Qed.
+Print Assumptions batch_error_is_some_shards_error.
+
+(* (d) what happens at the owners of a shard - direct writes, CreateShard, stored, handoff
+   offers, queued - is exactly what the single-shard run of that shard does (for every arrival
+   order of that run), whatever the other shards do, whatever the batch loop returns and when:
+   an early error return or a Close cancels nothing; and so handoff is offered exactly once
+   where due and never elsewhere at every owner of every shard *)
+Theorem batch_hh_independent :
+  forall b so sorder close dropped,
+  (forall k p, nth_error so k = Some p -> forall order,
+     nth_error (bo_shards (batch_model b so sorder close dropped)) k =
+       Some (ob_owners (model (shard_cfg b (fst p)) (sh_owners (fst p)) order))) /\
+  shards_ok b (map fst so) (bo_shards (batch_model b so sorder close dropped)) = true.
+Proof.
+  intros b so sorder close dropped. split.
+  - intros k p H order. exact (effects_are_single_shard b so sorder close dropped k p H order).
+  - exact (shards_ok_model b so).
+Qed.
+Print Assumptions batch_hh_independent.
+
+(* the schedules the harness realises are such runs / arrival orders, and for ALL inputs the
+   model's observation satisfies the executable batch spec Run.v evaluates on the
+   implementation's observation *)
+Theorem batch_model_satisfies_spec :
+  forall b so sorder close dropped,
+  let m := batch_model b so sorder close dropped in
+  batch_spec_ok b so sorder close dropped (out_of (bo_result m)) (bo_shards m) = true.
+Proof. exact BatchProofs.batch_model_spec_ok. Qed.
+Print Assumptions batch_model_satisfies_spec.
+
+Definition ex_b := mkB LQuorum 9 false.
+Definition ex_sh_ok := mkSh 11 NfNone [mkO 1 WOk false HAccept; mkO 2 WOk false HAccept; mkO 3 WRetry false HAccept].
+Definition ex_sh_bad := mkSh 12 NfNone [mkO 1 WOk false HAccept; mkO 2 WPerm false HAccept; mkO 3 WRetry false HRefuse].
+Definition ex_sh_to := mkSh 13 NfNone [mkO 1 WOk false HAccept; mkO 2 WHang false HAccept; mkO 3 WRetry false HRefuse].
+
+Example batch_nonvacuous :
+  let so := [(ex_sh_ok, [0; 1; 2]); (ex_sh_bad, [2; 1; 0]); (ex_sh_to, [0; 2])] in
+  valid_batch ex_b so [1; 0; 2] None = true /\
+  out_of (bo_result (batch_model ex_b so [1; 0; 2] None 0)) = OErr CPartial None /\
+  out_of (bo_result (batch_model ex_b so [0; 2; 1] (Some 1) 0)) = OErr CFailed None /\
+  out_of (bo_result (batch_model ex_b [(ex_sh_ok, [0; 1; 2]); (ex_sh_to, [0; 2])] [1; 0] None 3)) = OErr CTimeout None /\
+  out_of (bo_result (batch_model ex_b [(ex_sh_ok, [2; 1; 0]); (ex_sh_ok, [0; 1; 2])] [1; 0] None 3)) = ODrop 3 /\
+  out_of (bo_result (batch_model ex_b [(ex_sh_ok, [2; 1; 0]); (ex_sh_ok, [0; 1; 2])] [1; 0] None 0)) = OOk /\
+  map (map (fun x => snd (fst x))) (bo_shards (batch_model ex_b so [1; 0; 2] None 0)) = [[0; 0; 1]; [0; 0; 1]; [0; 0; 1]].
+Proof. vm_compute. repeat split. Qed.
+
+(* ================= the hinted-handoff answer of the real hh.Service ================= *)
+
+(* a block is accepted exactly when handoff is enabled and the block fits under max-size; every
+   refusal (queue full, disabled, ...) is "not queued" for the level *)
+Theorem handoff_accept_iff_fits :
+  forall h q blen,
+  (hh_answer h q blen = HOk <-> (h_enabled h = true /\ q_usage q + blen <= h_max h)) /\
+  (hhres_of (hh_answer h q blen) = HAccept <-> hh_answer h q blen = HOk).
+Proof. intros h q blen. split; [apply hh_accept_iff_fits | apply hhres_accept_only]. Qed.
+Print Assumptions handoff_accept_iff_fits.
+
+(* for every sequence of writes to a shard (any levels, any direct-write outcomes per owner,
+   any block sizes), every max-size, handoff enabled or not, any initial queues: a write
+   reported as success was received by some owner's store, or - only under any - its block is
+   in some owner's queue at the end of the sequence *)
+Theorem handoff_success_means_stored_or_queued :
+  forall self ooo h wsq st,
+  let r := hrun self ooo h st wsq in
+  Forall2 (success_backed (snd (fst r)) (snd r)) wsq (fst (fst r)).
+Proof. exact hrun_success_backed. Qed.
+Print Assumptions handoff_success_means_stored_or_queued.
+
+Theorem handoff_model_satisfies_spec :
+  forall self ooo h st wsq,
+  let r := hrun self ooo h st wsq in
+  hh_backed wsq (map class_num (fst (fst r))) (snd (fst r)) (map (fun p => q_blocks (snd p)) (snd r)) = true.
+Proof. exact hh_model_backed. Qed.
+Print Assumptions handoff_model_satisfies_spec.
+
+(* the two refusals mirrored by the model are in the source in that shape (re-derived from
+   services/hh/service.go and queue.go by tools/genconsts/c03.go on every run) *)
+Theorem handoff_refusal_shape : c03_hh_refusal_shape = true.
+Proof. reflexivity. Qed.
+Print Assumptions handoff_refusal_shape.
+
+Example handoff_nonvacuous :
+  let ws := [mkW 1 LAny [WRetry; WRetry] 40; mkW 2 LAny [WRetry; WPerm] 40; mkW 3 LAny [WRetry; WRetry] 40; mkW 4 LOne [WOk; WRetry] 40] in
+  let r := hrun 9 false (mkH true 120) [(1, hq_new); (2, hq_new)] ws in
+  fst (fst r) = [CSuccess; CSuccess; CFailed; CFailed] /\
+  map (fun p => q_blocks (snd p)) (snd r) = [[1; 2]; [1; 2]] /\ snd (fst r) = [].
+Proof. vm_compute. repeat split. Qed.
+
+(* ================= the remote write path (ShardWriter + connection pool) ================= *)
+
+(* for every sequence of node behaviours (timely / late / missing replies, hang-ups): every
+   write reads its own reply - success is reported exactly when the node stored THIS write and
+   acknowledged it in time *)
+Theorem remote_success_is_own_ack :
+  forall script,
+  rrun false None script = map (fun r => match r with RAck => true | _ => false end) script.
+Proof. intro script. exact (rrun_own script None (or_introl eq_refl)). Qed.
+Print Assumptions remote_success_is_own_ack.
+
+Theorem remote_model_satisfies_spec :
+  forall script, acked_ok (rrun false None script) (map node_stores script) = true.
+Proof. exact remote_link. Qed.
+Print Assumptions remote_model_satisfies_spec.
+
+(* a ShardWriter that kept the connection pooled after a read timeout would report the late
+   reply of one write as the answer to the next (kept as a checked refutation) *)
+Theorem remote_keep_connection_refuted :
+  exists script, success_means_stored script (rrun true None script) = false.
+Proof. exact remote_keep_refuted. Qed.
+Print Assumptions remote_keep_connection_refuted.
+
+(* WriteShardBinary marks the connection unusable when reading the reply fails (shape re-derived
+   from coordinator/shard_writer.go on every run) *)
+Theorem shard_writer_discards_connection_after_read_error : c03_shard_writer_discards_after_read_error = true.
+Proof. reflexivity. Qed.
+Print Assumptions shard_writer_discards_connection_after_read_error.
